@@ -301,6 +301,84 @@ def simulate(name, tier, wd, num, depth):
                 generated=r["generated"], distinct=r["distinct"])
 
 
+
+# ---------------------------------------------------------------- exhaustive short sequences (MC_Seq.tla)
+# TLC enumerates EVERY sequence of K free operations (over a small set of operations and arguments) after a
+# scripted prefix; each is replayed on the real library and validated like any other behaviour.
+SEQ = {
+    # every sequence of K operations among rekey / prune / refresh(keep, no keep) on one key holding two rights
+    "SeqRot": dict(consts=dict(Dims='{"D2"}', Names='{"a", "b"}', Users='{"u1"}', EncIds='{"e1", "e2"}', Pols="<- MCPolsSmall",
+                               MaxSid=30, MaxMpk=9, Script="<- Script_A_key"),
+                   ops=["Rekey", "Prune", "Refresh"], K=dict(quick=3, thorough=4)),
+    # disable / update / rekey / prune / mpk() / refresh
+    "SeqDis": dict(consts=dict(Dims='{"D2"}', Names='{"a", "b"}', Users='{"u1"}', EncIds='{"e1", "e2"}', Pols="<- MCPolsSmall",
+                               MaxSid=30, MaxMpk=9, Script="<- Script_A_key"),
+                   ops=["Disable", "Update", "Rekey", "Mpk", "Refresh"], K=dict(quick=3, thorough=4)),
+    # master key stored and reloaded / structure edits / key generation on an out-of-rank-order hierarchy
+    "SeqReload": dict(consts=dict(Dims='{"D1", "D2"}', Names='{"a", "b", "c"}', Users='{"u1", "u2"}', EncIds='{"e1", "e2"}',
+                                  Pols="<- MCPolsSmall", Hints="{FALSE, TRUE}", MaxAttrs=5, MaxUid=5, MaxSid=40, MaxMpk=8,
+                                  Script="<- Script_OutOfOrder"),
+                      ops=["RoundTrip", "Disable", "Update", "KeyGen", "Refresh"], K=dict(quick=2, thorough=3)),
+    # re-encapsulation of a two-target encapsulation after rotations and disables
+    "SeqRecaps": dict(consts=dict(Dims='{"D2"}', Names='{"a", "b"}', Users='{"u1"}', EncIds='{"e1", "e2"}', Pols="<- MCPolsSmall",
+                                  MaxSid=30, MaxMpk=5, Script="<- Script_A_two"),
+                      ops=["Rekey", "Disable", "Update", "Recaps"], K=dict(quick=3, thorough=4)),
+}
+SEQ_FOR_PROP = {"C01": ["SeqRot"], "C04": ["SeqRot"], "C05": ["SeqRot"], "C06": ["SeqDis"], "C09": ["SeqDis"],
+                "C02": ["SeqReload"], "C03": ["SeqReload"], "C11": ["SeqReload"], "C13": ["SeqReload"], "C18": ["SeqRecaps"]}
+
+
+def seq_behaviours(name, tier, wd):
+    c = SEQ[name]
+    consts = dict(BASE)
+    consts.update(c["consts"])
+    consts["IdFromCount"] = "TRUE"
+    consts["Ops"] = "{" + ", ".join(f'"{o}"' for o in c["ops"]) + "}"
+    consts["K"] = c["K"][tier]
+    cfg = os.path.join(wd, f"SEQ_{name}_{tier}.cfg")
+    lines = ["SPECIFICATION SSpec", "CONSTANTS"]
+    for k, v in consts.items():
+        v = str(v)
+        lines.append(f"  {k} {v}" if v.startswith("<-") else f"  {k} = {v}")
+    lines += ["CONSTRAINT Depth", "CONSTRAINT BoundNoAlias", "VIEW sview", "INVARIANT Emit"]
+    lines += ["INVARIANT " + i for i in ALL_INV]
+    lines.append("CHECK_DEADLOCK FALSE")
+    with open(cfg, "w") as f:
+        f.write("\n".join(lines) + "\n")
+    r = tlc(os.path.join(SPEC, "MC_Seq.tla"), cfg, wd, workers=8, timeout=900, xmx="8g")
+    out = r["out"]
+    inv = violated_name(out)
+    res = dict(config="sequences:" + name, tier=tier, K=c["K"][tier], operations=c["ops"], generated=r["generated"], distinct=r["distinct"],
+               completed="Model checking completed" in out, violations=[])
+    if inv:
+        path = os.path.join(wd, f"seq_{name}_counterexample.txt")
+        with open(path, "w") as f:
+            f.write(out[-20000:])
+        res["violations"].append(dict(what=f"TLC: {inv} violated in the sequence enumeration {name}", known=False, replay=path,
+                                      invariant=inv, steps=0))
+        return res
+    if not res["completed"] and not r["timeout"]:
+        from common import ToolError
+        raise ToolError(f"TLC error in sequence enumeration {name}:\n" + "\n".join(out.splitlines()[-30:]))
+    ops_path = os.path.join(wd, f"sequences_{name}.ndjson")
+    n = 0
+    with open(ops_path, "w") as f:
+        for line in out.splitlines():
+            if not line.startswith('<<"REPLAY"'):
+                continue
+            body = line[line.index(",") + 1:line.rindex(">>")].strip()
+            hist = json.loads(json.loads(body))
+            f.write(json.dumps({"k": "reset", "source": f"tlc-sequences {name} K={c['K'][tier]}"}) + "\n")
+            n += 1
+            for h in hist:
+                op = op_of(h["call"])     # (what the model predicts is compared by MTrace on every trace)
+                if op:
+                    f.write(json.dumps(op) + "\n")
+    res["behaviours"] = ops_path
+    res["n_behaviours"] = n
+    return res
+
+
 def selftest(prop, wd):
     """Re-enables a repaired defect in the MODEL and requires TLC to catch it."""
     if prop not in SELFTEST:
@@ -335,6 +413,10 @@ def run_for(prop, tier, wd):
         s = simulate(n, tier, wd, num, depth)
         log(f"[sim] {n}: {s['n_behaviours']} behaviours")
         res.append(s)
+    for n in SEQ_FOR_PROP.get(prop, []):
+        m = seq_behaviours(n, tier, wd)
+        log(f"[seq] {n}/{tier}: every sequence of {m['K']} operations among {m['operations']}: {m.get('n_behaviours', 0)} behaviours")
+        res.append(m)
     if tier == "thorough":
         st = selftest(prop, wd)
         if st:
